@@ -590,11 +590,11 @@ func rlUnits(g *rlGraph, prefix []string, planned bool, out *[]rlUnit) {
 
 type rlSite struct {
 	Site   string   `json:"site"`
-	Kind   string   `json:"kind"`              // branch-condition | state-pre-handler | state-post-handler
-	Form   string   `json:"form"`              // value | stream
-	GPath  []string `json:"graph_path"`        // node path of the graph on whose run loop the site runs (empty: TOP)
-	GKind  string   `json:"graph_kind"`        // graph-dag | graph-pregel | chain | workflow
-	Victim string   `json:"node,omitempty"`    // node of a state handler
+	Kind   string   `json:"kind"`           // branch-condition | state-pre-handler | state-post-handler
+	Form   string   `json:"form"`           // value | stream
+	GPath  []string `json:"graph_path"`     // node path of the graph on whose run loop the site runs (empty: TOP)
+	GKind  string   `json:"graph_kind"`     // graph-dag | graph-pregel | chain | workflow
+	Victim string   `json:"node,omitempty"` // node of a state handler
 	seg    int
 }
 
